@@ -31,9 +31,10 @@ def _case(draw):
     rootraw = []       # live root/raw handles
     n = draw(st.integers(3, 60))
     churn_next = 10000
+    burst_budget = 1 if draw(st.integers(0, 3)) == 0 else 0      # at most one large root burst, in a quarter of the cases
     res_pool = draw(st.lists(st.integers(0, 400), min_size=1, max_size=3))
     for _ in range(n):
-        o = draw(st.sampled_from(["new", "new", "new", "newa", "newa", "newa", "del", "drop", "collect", "churn", "box", "burst"]))
+        o = draw(st.sampled_from(["new", "new", "new", "newa", "newa", "newa", "del", "drop", "collect", "churn", "box", "burst", "rootburst"]))
         if o in ("new", "newa"):
             cls = draw(st.sampled_from(["m", "m", "m", "root", "raw"]))
             nobj += 1
@@ -58,6 +59,14 @@ def _case(draw):
             for j in range(cnt):
                 nobj += 1
                 ops.append(["new", nobj, "nodea", "m", -2 if last else r + (j % 2)])
+        elif o == "rootburst" and burst_budget:
+            burst_budget = 0
+            # many root objects at once: the registry passes through the larger sizes (197, 389, 683) with live entries,
+            # and shrinks again when they are deleted.  One compact op (expanded when the case is encoded).
+            cnt = draw(st.sampled_from([60, 60, 200, 200, 420]))
+            ops.append(["rootburst", nobj + 1, cnt, draw(st.sampled_from(["node", "nodea"])), draw(st.sampled_from(res_pool)),
+                        draw(st.booleans())])
+            nobj += cnt
         elif o == "del":
             cands = list(kept.items())
             if rootraw and (not cands or draw(st.booleans())):
@@ -123,6 +132,22 @@ def encode(case):
             lines.append("del %d" % op[1])
         elif o == "collect":
             lines.append("collect")
+        elif o == "rootburst":
+            base, cnt, kind, res, coll = op[1], op[2], op[3], op[4], op[5]
+            for j in range(cnt):
+                if kind == "nodea":
+                    lines.append("new %d nodea root %d" % (base + j, res if j % 3 == 0 else -1))
+                else:
+                    lines.append("new %d node root" % (base + j))
+                if j % 7 == 0:
+                    lines.append("gcchk")
+            if coll:
+                lines.append("collect")
+            lines.append("gcchk")
+            for j in range(cnt):
+                lines.append("del %d" % (base + j))
+                if j % 7 == 0:
+                    lines.append("gcchk")
         elif o == "churn":
             lines.append("churn %d %d" % (op[1], op[2]))
         else:
